@@ -47,6 +47,21 @@ Theorem C27_serializer_refines : forall hr hd total rs c es cr cd ms cl,
 Proof. exact record_layers_ok. Qed.
 Print Assumptions C27_serializer_refines.
 
+(* Control words (both levels present): for all level lists within the declared maxima, the bytes written
+   by build_control_word_iterator / append_next parse back, with ControlWordParser::new(bits_rep, bits_def),
+   to exactly the same (rep, def) levels, for every word width (1, 2 or 4 bytes), and writer and reader
+   agree on is_new_row / is_visible / is_valid_item. *)
+Theorem C27_control_words : forall rep def mr md mv len,
+  length rep = length def ->
+  1 <= mr -> mr < 32768 -> 1 <= md -> md < 32768 ->
+  Forall (fun r => r <= mr) rep -> Forall (fun d => d <= md) def ->
+  let descs := map2 (fun r d => (r =? mr, d <=? mv, d =? 0)) rep def in
+  exists bpw br bd bs,
+    cw_encode (Some rep) (Some def) mr md mv len = Ok (bpw, br, bd, true, bs, descs, true) /\
+    (do p <- parser_new br bd; parse_all p bs mr mv (S (length bs))) = Ok (rep, def, descs).
+Proof. exact control_words_roundtrip. Qed.
+Print Assumptions C27_control_words.
+
 (* ---- the known-finding classes are real: a well-formed member of each class on which the round trip fails *)
 Definition T := true. Definition F := false.
 
@@ -116,3 +131,10 @@ Example C27_nonvacuous_masked :
   Known_C27_allvalid_list_inside_nullable_struct cs = false /\
   roundtrip cs = Ok [(Some [T;F], None); (Some [T;F;T;F], Some [0;2;2;2;2]); (Some [T;F;T;T], None)].
 Proof. vm_compute. repeat split; reflexivity. Qed.
+
+Example C27_control_words_nonvacuous :
+  cw_encode (Some [0;7;3;2;9;8;12;5]) (Some [5;3;1;2;12;22;0;2]) 12 22 23 8
+  = Ok (2, 4, 5, true, [5; 0; 227; 0; 97; 0; 66; 0; 44; 1; 22; 1; 128; 1; 162; 0],
+        [(false, true, false); (false, true, false); (false, true, false); (false, true, false);
+         (false, true, false); (false, true, false); (true, true, true); (false, true, false)], true).
+Proof. vm_compute. reflexivity. Qed.
